@@ -113,6 +113,11 @@ impl<'tcx> Cx<'tcx> {
         }
     }
 
+    /// crate-independent identifier: the same for a def seen from its own crate or from a dependent one
+    fn id(&self, did: DefId) -> String {
+        format!("{}{}", self.crate_of(did), self.tcx.def_path(did).to_string_no_crate_verbose())
+    }
+
     fn ty(&self, t: Ty<'tcx>) -> String {
         with_no_trimmed_paths!(format!("{}", t))
     }
@@ -198,6 +203,7 @@ impl<'tcx> Cx<'tcx> {
         let tcx = self.tcx;
         let mut o: Vec<(&'static str, J)> = vec![
             ("def", s(self.path(def))),
+            ("id", s(self.id(def))),
             ("crate", s(self.crate_of(def))),
             ("args", J::Arr(args.iter().map(|a| s(with_no_trimmed_paths!(format!("{}", a)))).collect())),
         ];
@@ -228,6 +234,7 @@ impl<'tcx> Cx<'tcx> {
                     _ => "other",
                 };
                 o.push(("res", s(self.path(inst.def_id()))));
+                o.push(("res_id", s(self.id(inst.def_id()))));
                 o.push(("res_crate", s(self.crate_of(inst.def_id()))));
                 o.push(("res_kind", s(kind)));
             }
@@ -338,6 +345,7 @@ impl<'tcx> Cx<'tcx> {
                     AggregateKind::Closure(did, _) => {
                         o.push(("agg", s("closure")));
                         o.push(("closure", s(self.path(*did))));
+                        o.push(("closure_id", s(self.id(*did))));
                     }
                     AggregateKind::Coroutine(did, _) | AggregateKind::CoroutineClosure(did, _) => {
                         o.push(("agg", s("coroutine")));
@@ -373,8 +381,13 @@ impl<'tcx> Cx<'tcx> {
             Some(i) => format!("{}::promoted[{}]", self.path(did), i),
             None => self.path(did),
         };
+        let idname = match promoted {
+            Some(i) => format!("{}::promoted[{}]", self.id(did), i),
+            None => self.id(did),
+        };
         let mut o: Vec<(&'static str, J)> = vec![
             ("def", s(defname)),
+            ("id", s(idname)),
             ("kind", s(if promoted.is_some() { "Promoted".to_string() } else { format!("{:?}", kind) })),
             ("file", s(file)),
             ("line", J::Int(line)),
@@ -691,6 +704,14 @@ fn dump(tcx: TyCtxt<'_>) {
                         J::Obj(vec![
                             ("name", s(a.name().to_string())),
                             ("def", s(cx.path(a.def_id))),
+                            ("id", s(cx.id(a.def_id))),
+                            (
+                                "trait_item_id",
+                                match a.trait_item_def_id() {
+                                    Some(t) => s(cx.id(t)),
+                                    None => J::Null,
+                                },
+                            ),
                             (
                                 "trait_item",
                                 match a.trait_item_def_id() {
